@@ -330,6 +330,9 @@ class NetworkService(ModelElement):
         assert interface is not None
         assert isinstance(interface, Interface)
 
+        # the same guardrails apply whether the interface is given at creation or connected later
+        self.__service_guardrails(self.get_sliver(), interface)
+
         # we can only connect interfaces connected to (compute or switch) nodes,
         parent = self.topo.get_owner_node(interface)
         if parent is None:
